@@ -305,8 +305,33 @@ func runCase(c *chainx.Chain, pre map[string]string, cd caseDef) {
 	res := c.DeliverTx(tx)
 	nTx.Add(1)
 	r.Eval()
-	post := pv(c)
+	// keys written by this tx = dirty entries of the cache layer pushed right before it (no store iteration needed)
+	_, mainKey := c.Base.VerifStoreKeys()
+	dk, ok := c.Base.VerifDeliverMultiStore().GetStore(mainKey).(interface{ VerifDirtyKeys() []string })
+	if !ok {
+		r.HarnessError("main store of the deliver state is not a cache store")
+	}
+	post := map[string]string{}
+	for k, v := range pre {
+		post[k] = v
+	}
+	for _, k := range dk.VerifDirtyKeys() {
+		if !strings.HasPrefix(k, "/pv/") {
+			continue
+		}
+		if v, ok := c.ReadKey("main", k); ok {
+			post[k[len("/pv/"):]] = v
+		} else {
+			delete(post, k[len("/pv/"):])
+		}
+	}
 	diff := changed(pre, post)
+	if r.Thorough() || nTx.Load()%64 == 0 {
+		// cross-check of the shortcut against a full iteration of the params store (every case in thorough, every 64th in quick)
+		if full := changed(pre, pv(c)); fmt.Sprint(full) != fmt.Sprint(diff) {
+			r.HarnessError("dirty-key diff %v != full-scan diff %v in %s", diff, full, cd.label)
+		}
+	}
 	failed := res.Error != nil
 	if len(diff) > 0 {
 		if _, loaded := stateSet.LoadOrStore(chainx.HashDump(post), true); !loaded {
@@ -436,7 +461,7 @@ func main() {
 	}
 	addA(append(append(append([]string{}, keys1...), keys2...), special...), targets, tSetters)
 	if r.Quick() {
-		addA(keys3, []string{"gno.land/r/verif/ab", "gno.land/r/vm"}, []string{"SetString", "SetBytes", "AddStrings"})
+		addA(keys3, []string{"gno.land/r/verif/ab"}, []string{"SetString", "AddStrings"})
 	} else {
 		addA(keys3, targets, tSetters)
 	}
@@ -551,6 +576,8 @@ func main() {
 		cases = append(cases, caseDef{part: "C", label: fmt.Sprintf("%s(%s)", x.fn, show(strings.Join(x.args, ","))), msg: callD(x.fn, x.args...)})
 	}
 
+	// the small parts first (B, C), then A: a budget cap can then only cut the tail of the key enumeration
+	sort.SliceStable(cases, func(i, j int) bool { return cases[i].part != "A" && cases[j].part == "A" })
 	r.Sample(map[string]any{"case": "gno.land/r/verif/ab.SetString(cd:seedSetString)", "meaning": "a realm whose path is a prefix of gno.land/r/verif/ab/cd aims at that realm's existing parameter"})
 	r.Sample(map[string]any{"case": "gno.land/r/sys/params/evil.Deferred(vm,p,chain_domain,evil.land)", "meaning": "a realm living under the designated path calls the module setter in a deferred call"})
 	r.Sample(map[string]any{"case": "SetString(auth,p,initial_gasprice,1ugnot/1000gas)", "meaning": "the designated realm writes a module parameter; the stored bytes must decode into auth.Params and validate"})
